@@ -93,6 +93,70 @@ from openapi_python_client.parser.errors import ErrorLevel  # noqa: E402
 assert os.path.realpath(opc.__file__).startswith(os.path.realpath(REPO)), (opc.__file__, REPO)
 PKG_DIR = os.path.dirname(os.path.realpath(opc.__file__))
 
+# ------------------------------------------------------------------------------------------------ M-CONTRACT
+# Runtime contracts on the repository's naming / escaping primitives, installed from the harness (no repository edit).
+# They *localise* (first offending call with its arguments); verdicts are always taken where the bad state becomes
+# observable (tree / sandbox).  Conditions record and return True, so a broken contract never aborts a generation.
+CONTRACT = {"engine": None, "evaluations": {}, "failures": []}
+
+
+def _install_contracts():
+    import keyword as _kw
+    from openapi_python_client import utils as _u
+    deps = str(HERE.parent / ".deps")
+    if os.path.isdir(deps) and deps not in sys.path:
+        sys.path.append(deps)  # appended: never shadows the repository's own dependencies
+    try:
+        import icontract
+    except Exception:
+        icontract = None
+
+    def note(name, ok, **ctx):
+        CONTRACT["evaluations"][name] = CONTRACT["evaluations"].get(name, 0) + 1
+        if not ok and len(CONTRACT["failures"]) < 20:
+            CONTRACT["failures"].append({"contract": name, **{k: repr(v)[:80] for k, v in ctx.items()}})
+        return True
+
+    def identifier_is_valid(result, value):
+        return note("PythonIdentifier:valid_non_keyword_identifier", str(result).isidentifier() and not _kw.iskeyword(str(result)), value=value, result=result)
+
+    def class_name_is_valid(result, value):
+        return note("ClassName:valid_non_keyword_identifier", str(result).isidentifier() and not _kw.iskeyword(str(result)), value=value, result=result)
+
+    def escapes_reproduce_value(result, value):
+        try:
+            import ast as _ast
+            okk = _ast.literal_eval('"' + result + '"') == value
+        except Exception:
+            okk = False
+        return note("remove_string_escapes:literal_reproduces_value", okk, value=value, result=result)
+
+    def path_parameters_follow_path(result):
+        if hasattr(result, "path_parameters"):
+            names_ = re.findall(r"{([^}]*)}", result.path)
+            return note("Endpoint.sort_parameters:order_follows_path", names_ == [str(p.python_name) for p in result.path_parameters], path=result.path)
+        return note("Endpoint.sort_parameters:order_follows_path", True)
+
+    if icontract is not None:
+        class ContractBroken(Exception):
+            pass
+        _u.PythonIdentifier.__new__ = icontract.ensure(identifier_is_valid, error=ContractBroken)(_u.PythonIdentifier.__new__)
+        _u.ClassName.__new__ = icontract.ensure(class_name_is_valid, error=ContractBroken)(_u.ClassName.__new__)
+        _u.remove_string_escapes = icontract.ensure(escapes_reproduce_value, error=ContractBroken)(_u.remove_string_escapes)
+        opc_openapi.Endpoint.sort_parameters = staticmethod(icontract.ensure(path_parameters_follow_path, error=ContractBroken)(opc_openapi.Endpoint.sort_parameters))
+        CONTRACT["engine"] = "icontract " + getattr(icontract, "__version__", "?")
+    else:
+        def wrap(fn, cond, with_value=True):
+            def inner(*a, **k):
+                r = fn(*a, **k)
+                cond(r, (a[1] if len(a) > 1 else k.get("value"))) if with_value else cond(r)
+                return r
+            return inner
+        _u.PythonIdentifier.__new__ = wrap(_u.PythonIdentifier.__new__, identifier_is_valid)
+        _u.ClassName.__new__ = wrap(_u.ClassName.__new__, class_name_is_valid)
+        CONTRACT["engine"] = "plain wrappers (icontract not installed)"
+
+
 # ------------------------------------------------------------------------------------------------ M-STEP
 
 
@@ -138,6 +202,14 @@ def _cov_setup():
 
 
 # ------------------------------------------------------------------------------------------------ M-STRUCT
+import re  # noqa: E402
+
+try:
+    if os.environ.get("OPENAPI_PYTHON_CLIENT_VERIF") == "1" and os.environ.get("VERIF_CONTRACTS", "1") == "1":
+        _install_contracts()
+except Exception as _ex:  # a contract library problem must never break the deciding monitors
+    CONTRACT["engine"] = f"not installed: {type(_ex).__name__}: {_ex}"
+
 CAPT = {"schemas": None, "endpoints": None}
 _orig_from_data = opc_openapi.EndpointCollection.from_data
 
@@ -407,8 +479,11 @@ def handle(job: dict) -> dict:
         os.makedirs(job["cwd"], exist_ok=True)
         os.chdir(job["cwd"])
     CAPT["schemas"] = CAPT["endpoints"] = None
-    if job.get("cov") and not COV["on"]:
-        _cov_setup()
+    if job.get("cov"):
+        if not COV["on"]:
+            _cov_setup()
+        else:
+            sys.monitoring.restart_events()  # lines disabled by an earlier job of this worker report again
     COV["lines"] = set()
     FS["events"] = []
     cpu_limit = float(job.get("cpu_limit", 30.0))
@@ -466,6 +541,9 @@ def handle(job: dict) -> dict:
         res["diags"] = diag_list(errors)
         res["accepted"] = not any(e.level == ErrorLevel.ERROR for e in errors)
     want = set(job.get("want") or [])
+    if "cov" in want:
+        res["contracts"] = {"engine": CONTRACT["engine"], "evaluations": dict(CONTRACT["evaluations"]), "failures": list(CONTRACT["failures"])}
+        CONTRACT["evaluations"], CONTRACT["failures"] = {}, []
     res["out_exists"] = outdir.exists()
     if "fs" in want:
         res["fs_events"] = FS["events"][:2000]
